@@ -10,11 +10,11 @@ use super::*;
 use std::os::fd::FromRawFd;
 
 const BASE: usize = 60;
-const MAXN: usize = 5;
+const MAXN: usize = 8;
 static mut W: [usize; MAXN] = [0; MAXN];
 static mut BATCH_PTR: usize = 0;
 static mut LAST: (usize, usize) = (0, 0);
-static mut SENT: [(usize, usize, usize); 8] = [(0, 0, 0); 8]; // at most n datagrams for n <= 5 spans
+static mut SENT: [(usize, usize, usize); 8] = [(0, 0, 0); 8]; // at most n datagrams for n <= 8 spans
 static mut NSENT: usize = 0;
 static mut CONVERTS: usize = 0;
 
@@ -72,7 +72,10 @@ fn splitter(n: usize) {
         2 => vec![SpanRecord::default(), SpanRecord::default()],
         3 => vec![SpanRecord::default(), SpanRecord::default(), SpanRecord::default()],
         4 => vec![SpanRecord::default(), SpanRecord::default(), SpanRecord::default(), SpanRecord::default()],
-        _ => vec![SpanRecord::default(), SpanRecord::default(), SpanRecord::default(), SpanRecord::default(), SpanRecord::default()],
+        5 => vec![SpanRecord::default(), SpanRecord::default(), SpanRecord::default(), SpanRecord::default(), SpanRecord::default()],
+        6 => vec![SpanRecord::default(), SpanRecord::default(), SpanRecord::default(), SpanRecord::default(), SpanRecord::default(), SpanRecord::default()],
+        7 => vec![SpanRecord::default(), SpanRecord::default(), SpanRecord::default(), SpanRecord::default(), SpanRecord::default(), SpanRecord::default(), SpanRecord::default()],
+        _ => vec![SpanRecord::default(), SpanRecord::default(), SpanRecord::default(), SpanRecord::default(), SpanRecord::default(), SpanRecord::default(), SpanRecord::default(), SpanRecord::default()],
     };
     unsafe {
         BATCH_PTR = batch.as_ptr() as usize;
@@ -83,9 +86,11 @@ fn splitter(n: usize) {
             i += 1;
         }
     }
+    assert!(n >= 1 && n <= MAXN && batch.len() == n);
     let r = reporter.try_report(&batch);
     assert!(r.is_ok());
     unsafe {
+        assert!(NSENT <= n, "more datagrams than spans");
         // every datagram is below the limit
         let mut k = 0;
         while k < 8 {
@@ -162,4 +167,31 @@ fn jg_splitter_n4() {
 #[kani::stub(std::net::UdpSocket::send_to, send_to_oracle)]
 fn jg_splitter_n5() {
     splitter(5);
+}
+
+#[kani::proof]
+#[kani::unwind(16)]
+#[kani::stub(JaegerReporter::convert, convert_oracle)]
+#[kani::stub(JaegerReporter::serialize, serialize_oracle)]
+#[kani::stub(std::net::UdpSocket::send_to, send_to_oracle)]
+fn jg_splitter_n6() {
+    splitter(6);
+}
+
+#[kani::proof]
+#[kani::unwind(17)]
+#[kani::stub(JaegerReporter::convert, convert_oracle)]
+#[kani::stub(JaegerReporter::serialize, serialize_oracle)]
+#[kani::stub(std::net::UdpSocket::send_to, send_to_oracle)]
+fn jg_splitter_n7() {
+    splitter(7);
+}
+
+#[kani::proof]
+#[kani::unwind(18)]
+#[kani::stub(JaegerReporter::convert, convert_oracle)]
+#[kani::stub(JaegerReporter::serialize, serialize_oracle)]
+#[kani::stub(std::net::UdpSocket::send_to, send_to_oracle)]
+fn jg_splitter_n8() {
+    splitter(8);
 }
